@@ -2,10 +2,10 @@
 CONSTANTS
   Variant = "subright"
   MaxDepth = 2
-  FullDepth = 1
+  FullDepth = 0
   CtxDepth = 0
   StmtFull = FALSE
 INIT InitSpine
 NEXT NextSpine
-INVARIANTS RoundTrip Minimal
+INVARIANTS RoundTrip
 CHECK_DEADLOCK FALSE
